@@ -2,9 +2,13 @@
 Tie: random histories of API calls on a real environment (every failure class of Execve, sync before / after exec,
 failing callbacks, cancellation, batches), wire-level logs of both endpoints replayed in Coq against host_steps /
 cont_steps (the functions of the LTS the theorems are about).  Oracle: every call gets an answer of its own class,
-no transport-class failure without loss of the transport, Ping and Execve(/bin/true) succeed after every history."""
+no transport-class failure without loss of the transport, Ping and Execve(/bin/true) succeed after every history.
+Also: programs whose descendants have left their process group / session when the program ends or is killed (every call after
+such a run must be answered), and one environment used by several callers at once while the callback of an Execve is running
+(every caller gets the answer of ITS call, nothing is started before the callback has returned)."""
 import json
 import os
+import time
 
 from vlib import coq_list
 
@@ -12,11 +16,17 @@ FINISH = dict(level="proof", rule=(
     "histories of 1..30 operations over {Ping, Open, Delete, Symlink, Reset, Execve(params)} where each Execve draws its class: "
     "runs (exit 0 / non-zero / killed by a signal / cancelled while sleeping), unknown relative name, missing absolute path, "
     "no exec bit, malformed executable, script with a missing interpreter, empty argument list, failing callback — each "
-    "with sync before or after exec and with or without a callback.  Non-trivial: a history containing at least one failing "
+    "with sync before or after exec and with or without a callback; programs that leave descendants outside their process "
+    "group / session (setsid, setpgid, daemon, joined foreign group, nested sessions) and end by themselves, are cancelled or "
+    "are refused by a callback that answers late, each followed by further calls; groups of 1..4 callers that use one "
+    "environment at the same time as an Execve whose callback takes 120..300 ms (callers arriving before the call, with it, "
+    "and inside the callback).  Non-trivial: a history containing at least one failing "
     "Execve; distinct = distinct histories."))
 
 HDR = "From Coq Require Import List.\nImport ListNotations.\nFrom GS Require Import Container.Proto Container.EvalProto.\n"
 T = "/vb/probe_target"
+ESC = "/vb/probe_c10esc"
+ESC_MODES = ["setsid", "setpgid", "daemon", "joinpg", "nested", "ingroup"]
 CMDK = {"ping": 0, "open": 0, "delete": 0, "reset": 0, "symlink": 0, "conf": 0, "execve": 1, "ok": 2, "kill": 3}
 REPK = {"ack": 0, "err": 1, "result": 3}
 TRANSPORT_WORDS = ("EOF", "closed", "broken pipe", "recvReply", "sendCmd", "too large", "connection", "ack failed", "no reply received")
@@ -24,7 +34,8 @@ TRANSPORT_WORDS = ("EOF", "closed", "broken pipe", "recvReply", "sendCmd", "too 
 
 def exec_op(r):
     k = r.choice(["true", "true", "exit3", "sig9", "sleepcancel", "relmissing", "absmissing", "noexec", "badelf", "script",
-                  "emptyargv", "cbfail", "cbfail", "exitcross", "exitcross", "exitcross", "badfilter", "badfilter", "goodfilter"])
+                  "emptyargv", "cbfail", "cbfail", "exitcross", "exitcross", "exitcross", "badfilter", "badfilter", "goodfilter",
+                  "escape", "escape"])
     sync = r.choice([None, "ok"])
     sa = r.random() < 0.4
     o = {"op": "exec", "_class": k, "sync_after": sa}
@@ -50,6 +61,14 @@ def exec_op(r):
         o["args"], o["seccomp"], o["_expect"] = ["/bin/true"], "bad", [8]
     elif k == "goodfilter":
         o["args"], o["seccomp"], o["_expect"] = ["/bin/true"], "ok", [1]
+    elif k == "escape":
+        # descendants of the program are outside its process group / session when it ends (or is cancelled)
+        mode, n = r.choice(ESC_MODES), r.choice([1, 1, 2, 3])
+        if r.random() < 0.3:
+            o["args"], o["cancel_ms"], o["_expect"] = [ESC, mode, "0", "-1", str(n)], r.choice([100, 200, 400]), [2, 8]
+        else:
+            code = r.choice([0, 0, 3, 41])
+            o["args"], o["_expect"] = [ESC, mode, str(code), str(r.choice([0, 0, 5, 40])), str(n)], [1 if code == 0 else 7]
     elif k == "relmissing":
         o["args"], o["_expect"] = ["no_such_command_xyz"], [8]
     elif k == "absmissing":
@@ -67,9 +86,273 @@ def exec_op(r):
     return o
 
 
+def wire_events(logs):
+    hev = [("Snd %d" % CMDK[l.split()[1]]) if l.startswith("send") else ("Rcv %d" % REPK[l.split()[1]]) for l in (logs.get("host") or [])]
+    cev = []
+    for l in (logs.get("cont") or []):
+        p = l.split()
+        if p[0] != "VERIF":
+            continue
+        cev.append(("Rcv %d" % CMDK[p[2]]) if p[1] == "recv" else ("Snd %d" % REPK[p[2]]))
+    return hev, cev
+
+
+def wire(logs):
+    hev, cev = wire_events(logs)
+    return coq_list(hev), coq_list(cev)
+
+
+def transportish(e):
+    return bool(e) and any(w in e for w in TRANSPORT_WORDS + ("timeout", "i/o"))
+
+
+def answer_of(op, ob):
+    """What is wrong with the answer `ob` of the single call `op` (None: it is the answer this call has to get).  The expectation is
+    part of the op ("_want"): ok | error (an error of this call, the transport is fine) | content:<text> | item-error |
+    status:<s>[:<exit>] (several allowed, separated by '|')."""
+    want = op["_want"]
+    if ob is None or not ob.get("returned", True):
+        return "the call never returned"
+    if op["op"] == "exec":
+        if ob.get("status") == 8 and transportish(ob.get("errmsg")):
+            return "transport-class failure although the transport is intact: %s" % ob.get("errmsg", "")[:90]
+        for alt in want.split("|"):
+            f = alt.split(":")
+            if f[0] == "status" and ob.get("status") == int(f[1]) and (len(f) < 3 or ob.get("exit") == int(f[2])):
+                return None
+        return "answered with status %s exit %s %s" % (ob.get("status"), ob.get("exit"), (ob.get("errmsg") or "")[:90])
+    e = ob.get("err")
+    if transportish(e):
+        return "transport-class failure although the transport is intact: %s" % e[:90]
+    if want == "ok":
+        if e:
+            return "answered with an error: %s" % e[:90]
+        if op["op"] == "symlink" and ob.get("results") != [None]:
+            return "answered with %r instead of one success" % (ob.get("results"),)
+        return None
+    if want == "error":
+        return None if e else "reports success (an answer that cannot be this call's)"
+    if e:
+        return "answered with an error: %s" % e[:90]
+    if ob.get("n_results") != 1:
+        return "answered with %s results for one item" % ob.get("n_results")
+    if want == "item-error":
+        return None if ob.get("item_err") else "the item that cannot be opened is reported as opened"
+    if ob.get("item_err"):
+        return "the item is reported as failed: %s" % ob["item_err"][:90]
+    return None if ob.get("content") == want.split(":", 1)[1] else "the descriptor reads %r" % ob.get("content")
+
+
+def strip(ops):
+    if isinstance(ops, list):
+        return [strip(o) for o in ops]
+    if isinstance(ops, dict):
+        return {k: strip(v) for k, v in ops.items() if not k.startswith("_")}
+    return ops
+
+
+def followups(r, tag, n):
+    """n calls whose answers can be told apart from the answer of any other call"""
+    out = []
+    for j in range(n):
+        k = r.choice(["ping", "exec", "delete", "create", "readback", "symlink", "missing"])
+        if k == "ping":
+            out.append({"op": "ping", "_want": "ok"})
+        elif k == "exec":
+            code = r.randint(2, 120)
+            out.append({"op": "exec", "args": [T, "exit", str(code)], "_want": "status:7:%d" % code})
+        elif k == "delete":
+            out.append({"op": "delete", "path": "/w/none-%s-%d" % (tag, j), "_want": "error"})
+        elif k == "create":
+            out.append({"op": "open", "path": "/w/f-%s-%d" % (tag, j), "flag": 0o102, "perm": 0o600, "write": "c-%s-%d" % (tag, j), "_want": "ok"})
+            out.append({"op": "open", "path": "/w/f-%s-%d" % (tag, j), "flag": 0, "perm": 0, "read": True, "_want": "content:c-%s-%d" % (tag, j)})
+        elif k == "readback":
+            out.append({"op": "open", "path": "/w/known", "flag": 0, "perm": 0, "read": True, "_want": "content:known"})
+        elif k == "symlink":
+            out.append({"op": "symlink", "link": "/w/l-%s-%d" % (tag, j), "target": "known", "_want": "ok"})
+        else:
+            out.append({"op": "open", "path": "/w/nodir-%s/x" % tag, "flag": 0, "perm": 0, "_want": "item-error"})
+    return out
+
+
+KNOWN = {"op": "open", "path": "/w/known", "flag": 0o102, "perm": 0o600, "write": "known", "_want": "ok"}
+
+
+def escaped_descendants(c, exe2, env):
+    """A program may do with its process tree what it likes: its descendants may be in other process groups and sessions than the
+    program when it ends, is cancelled, or is refused by the callback.  That is a matter of the program ("failures caused by ... the
+    program ... leave the environment fully usable", "every call returns exactly one answer"): the run gets its own verdict and every
+    call after it is answered with its own answer."""
+    r = c.rng("escaped")
+    nh = 7 if c.quick() else 60
+    ends = ["exit0", "exit", "cancel", "latefail", "exit", "cancel"]
+    cases = []
+    for hid in range(nh):
+        ops = [{"op": "newenv", "unshare_cgroup": hid % 3 == 2}, dict(KNOWN)]
+        for k in range(r.choice([1, 2, 2, 3])):
+            mode = ESC_MODES[(hid + 2 * k) % len(ESC_MODES)] if k < 2 else r.choice(ESC_MODES)
+            end = ends[(hid + k) % len(ends)] if k < 2 else r.choice(ends)
+            n = r.choice([1, 1, 2, 4])
+            o = {"op": "exec", "_escape": mode, "_end": end, "sync_after": r.random() < 0.4}
+            if r.random() < 0.5:
+                o["sync"], o["sync_ms"] = "ok", r.choice([0, 0, 30])
+            if end == "exit0":
+                o["args"], o["_want"] = [ESC, mode, "0", str(r.choice([0, 10, 60])), str(n)], "status:1"
+            elif end == "exit":
+                code = r.randint(2, 120)
+                o["args"], o["_want"] = [ESC, mode, str(code), str(r.choice([0, 10, 60])), str(n)], "status:7:%d" % code
+            elif end == "cancel":
+                # the time limit of the caller: the program is killed while its descendants are elsewhere
+                o["args"], o["cancel_ms"], o["_want"] = [ESC, mode, "0", "-1", str(n)], r.choice([200, 400, 700]), "status:2|status:8"
+            else:
+                # started first, synchronised afterwards, and the callback says no after the program has rearranged its tree
+                o["args"], o["sync_after"], o["sync"], o["sync_ms"], o["_want"] = [ESC, mode, "0", "-1", str(n)], True, "fail", r.choice([300, 500]), "status:8"
+            ops.append(o)
+            ops += followups(r, "e%d-%d" % (hid, k), r.randint(1, 3))
+        ops += [{"op": "ping", "_want": "ok"}, {"op": "exec", "args": ["/bin/true"], "_want": "status:1"}, {"op": "logs"}]
+        cases.append({"id": hid, "ops": ops})
+    good_logs, obs = [], []
+    escaped_runs = nbad = 0
+    for x in cases:
+        if nbad >= 2:
+            break   # two histories have shown it; every further one costs the 12 s of a call that does not return
+        # one process per history: a call that never returns may hold the fork lock of its process for ever
+        o = c.run_harness(exe2, [{"id": x["id"], "ops": strip(x["ops"])}], env=env, timeout=300)[0]
+        obs.append(o)
+        if "harness_err" in o:
+            raise RuntimeError(o["harness_err"])
+        last_escape = None
+        clean = True
+        for i, (op, ob) in enumerate(zip(x["ops"], o["obs"])):
+            if "_want" not in op:
+                continue
+            bad = answer_of(op, None if ob.get("hang") else ob)
+            if bad is None and ob.get("ms", 0) > 8000:
+                bad = "the call took %d ms" % ob["ms"]
+            if "_escape" in op:
+                last_escape = op
+                if ob.get("stdout") == "up":
+                    escaped_runs += 1
+            if bad:
+                clean = False
+                after = (" after a program that left descendants outside its process group (%s, %s)" % (last_escape["_escape"], last_escape["_end"])) \
+                    if last_escape is not None and last_escape is not op else ""
+                c.finding_or_violation({"kind": "rpc", "what": "%s: %s" % ("the run itself" if last_escape is op else "a call" + after, bad.split(":")[0]),
+                                        "op": op["op"], "class": "escaped-descendants"},
+                                       {"history": x["ops"][:i + 1], "failing_call": op, "expected": op["_want"], "observed_answer": ob, "what": bad,
+                                        "observed": o["obs"]}, klass="escaped-descendants")
+                break
+        nbad += 0 if clean else 1
+        c.count(json.dumps(strip(x["ops"])), nontrivial=True, klass="history:escaped-descendants")
+        if not o.get("hang") and o["obs"] and o["obs"][-1].get("op") == "logs":
+            good_logs.append(o["obs"][-1])
+    c.cov["escaped_descendant_histories"] = len(obs)
+    c.cov["escaped_descendant_runs_confirmed_up"] = escaped_runs
+    if obs and len(obs[0].get("obs", [])) > 3:
+        c.sample({"escaped_descendants": strip(cases[0]["ops"][2:5]), "observed": [{k: v for k, v in ob.items()} for ob in obs[0]["obs"][2:5]]})
+    return good_logs
+
+
+def callers_at_once(c, exe2, env):
+    """One environment, several callers at the same time, while an Execve is inside its callback (attaching the process to a cgroup
+    takes a while).  "Every call returns exactly one answer and that answer belongs to that call; host and container always agree on
+    which command is in progress": whoever calls while another call is in progress gets the answer of his own call, the Execve gets
+    its own verdict, and a program that is synchronised before exec has not run when the callback returns."""
+    r = c.rng("callers")
+    ng = 8 if c.quick() else 60
+    cases = []
+    for g in range(ng):
+        tag = "g%d" % g
+        fail = g % 4 == 2
+        sync_after = g % 4 == 3 or (g >= 4 and r.random() < 0.3)
+        code = r.randint(2, 120)
+        mark = "/w/mark-%s" % tag
+        main = {"op": "exec", "args": [ESC, "mark", mark, str(code)], "sync": "fail" if fail else "ok", "sync_ms": r.choice([120, 200, 300]),
+                "sync_after": sync_after, "_want": "status:8" if fail else "status:7:%d" % code}
+        if g == 0:
+            others = [{"op": "ping", "_want": "ok"}]
+        elif g == 1:
+            others = [{"op": "delete", "path": "/w/none-" + tag, "_want": "error"}, {"op": "open", "path": "/w/known", "flag": 0, "perm": 0, "read": True, "_want": "content:known"}]
+        else:
+            others = [x for x in followups(r, tag, r.randint(1, 3)) if not (x["op"] == "open" and x.get("read") and x["path"] != "/w/known")][:4]
+        for x in others:
+            x["at"] = "callback" if g < 2 else r.choice(["callback", "callback", "callback", "start", "before"])
+        if not any(x["at"] == "callback" for x in others):
+            others[0]["at"] = "callback"
+        ops = [{"op": "newenv", "unshare_cgroup": g % 2 == 1}, dict(KNOWN), {"op": "par", "mark": "" if sync_after else mark, "main": main, "others": others}]
+        if fail and not sync_after:
+            # refused before exec: the program has never run
+            ops.append({"op": "open", "path": mark, "flag": 0, "perm": 0, "read": True, "_want": "item-error"})
+        ops += followups(r, tag + "x", 2)
+        ops += [{"op": "delete", "path": "/w/none-after-" + tag, "_want": "error"}, {"op": "ping", "_want": "ok"},
+                {"op": "exec", "args": [T, "exit", "9"], "_want": "status:7:9"}, {"op": "logs"}]
+        cases.append({"id": g, "ops": ops})
+    good_logs, obs = [], []
+    inside = nbad = 0
+    for x in cases:
+        if nbad >= 2:
+            break
+        o = c.run_harness(exe2, [{"id": x["id"], "ops": strip(x["ops"])}], env=env, timeout=300)[0]
+        obs.append(o)
+        if "harness_err" in o:
+            raise RuntimeError(o["harness_err"])
+        clean = True
+
+        def report(what, detail, upto, extra):
+            c.finding_or_violation({"kind": "rpc", "what": what, "class": "callers-at-once"},
+                                   dict({"history": x["ops"][:upto + 1], "what": detail, "observed": o["obs"]}, **extra), klass="callers-at-once")
+        for i, (op, ob) in enumerate(zip(x["ops"], o["obs"])):
+            if op["op"] == "par":
+                calls = [("the Execve whose callback was running", op["main"], ob.get("main"))] + \
+                        [("a %s made %s" % (oo["op"], {"callback": "while the callback of another caller's Execve was running", "start": "together with another caller's Execve",
+                                                       "before": "just before another caller's Execve"}[oo["at"]]), oo, (ob.get("others") or [None] * len(op["others"]))[j])
+                         for j, oo in enumerate(op["others"])]
+                cb = ob.get("callback") or {}
+                for j, oo in enumerate(op["others"]):
+                    a = (ob.get("others") or [None] * len(op["others"]))[j]
+                    if oo["at"] == "callback" and a and cb.get("leave_us") and a.get("begin_us", 1 << 60) < cb["leave_us"]:
+                        inside += 1
+                # an answer that came back and is not the call's own says more than a call that is still waiting: those first
+                judged = [(who, cop, cob, answer_of(cop, cob)) for who, cop, cob in calls]
+                judged.sort(key=lambda t: t[3] is not None and t[3].startswith("the call never returned"))
+                for who, cop, cob, bad in judged:
+                    if bad:
+                        clean = False
+                        report("%s: %s" % (who, bad.split(":")[0]), "%s: %s" % (who, bad), i,
+                               {"failing_call": cop, "expected": cop["_want"], "observed_answer": cob if cob is not None else "(never returned)"})
+                        break
+                if clean and cb.get("mark_at_callback_end"):
+                    clean = False
+                    report("the program of an Execve that is synchronised before exec had run before the callback returned (a command of another caller was taken for the acknowledgement)",
+                           "mark %s exists in the container at the end of the callback" % op["mark"], i,
+                           {"failing_call": op["main"], "expected": "the program is started after the callback has returned", "observed_answer": cb})
+                if clean and ob.get("hang"):
+                    clean = False
+                    report("a group of concurrent calls did not finish", "hang", i, {"expected": "every call returns", "observed_answer": ob})
+            elif "_want" in op:
+                bad = answer_of(op, None if ob.get("hang") else ob)
+                if bad:
+                    clean = False
+                    report("a call after several callers used the environment at once: %s" % bad.split(":")[0], bad, i,
+                           {"failing_call": op, "expected": op["_want"], "observed_answer": ob})
+            if not clean:
+                break
+        nbad += 0 if clean else 1
+        c.count(json.dumps(strip(x["ops"])), nontrivial=True, klass="history:callers-at-once")
+        if not o.get("hang") and o["obs"] and o["obs"][-1].get("op") == "logs":
+            good_logs.append(o["obs"][-1])
+    c.cov["concurrent_caller_groups"] = len(obs)
+    c.cov["calls_begun_inside_a_running_callback"] = inside
+    if obs and len(obs[0].get("obs", [])) > 2:
+        c.sample({"callers_at_once": strip(cases[0]["ops"][2]), "observed": obs[0]["obs"][2]})
+    return good_logs
+
+
 def run(c):
     exe = c.build_harness("h_env")
     c.build_probe("target")
+    c.build_probe("c10esc")
+    exe2 = c.build_harness("h_c10")
     scratch = c.tmpdir("scratch")
     env = dict(os.environ, VERIF_SCRATCH=scratch)
     r = c.rng("histories")
@@ -103,9 +386,15 @@ def run(c):
                 ops.append(dict(plant))
         ops += [{"op": "ping"}, {"op": "exec", "args": ["/bin/true"], "_class": "true", "_expect": [1]}, {"op": "logs"}]
         cases.append({"id": hid, "ops": ops})
-    obs = c.run_harness(exe, [{"id": x["id"], "ops": [{k: v for k, v in o.items() if not k.startswith("_")} for o in x["ops"]]} for x in cases],
-                        env=env, timeout=900)
-    items, dis = [], []
+    # 40 histories per harness process (the time allowed to a process is no statement about the project: on a loaded machine a
+    # history takes ten times what it takes on an idle one)
+    obs = []
+    t_hist = time.time()
+    for lo in range(0, len(cases), 40):
+        obs += c.run_harness(exe, [{"id": x["id"], "ops": [{k: v for k, v in o.items() if not k.startswith("_")} for o in x["ops"]]} for x in cases[lo:lo + 40]],
+                             env=env, timeout=1800)
+    c.log("random histories: %.1f s" % (time.time() - t_hist))
+    items, item_src, dis = [], [], []
     for x, o in zip(cases, obs):
         if "harness_err" in o:
             raise RuntimeError(o["harness_err"])
@@ -148,26 +437,28 @@ def run(c):
             c.count(json.dumps(x["ops"]), nontrivial=True, klass="history:hang")
             continue
         logs = o["obs"][-1]
-        hev = [("Snd %d" % CMDK[l.split()[1]]) if l.startswith("send") else ("Rcv %d" % REPK[l.split()[1]]) for l in (logs.get("host") or [])]
-        cev = []
-        for l in (logs.get("cont") or []):
-            p = l.split()
-            if p[0] != "VERIF":
-                continue
-            cev.append(("Rcv %d" % CMDK[p[2]]) if p[1] == "recv" else ("Snd %d" % REPK[p[2]]))
+        hev, cev = wire_events(logs)
         items.append("(%s, %s)" % (coq_list(hev), coq_list(cev)))
+        item_src.append(logs)
         c.count(json.dumps(x["ops"]), nontrivial=failing > 0, klass="history:%s" % ("failing" if failing else "clean"))
         c.cov["wire_events"] = c.cov.get("wire_events", 0) + len(hev) + len(cev)
     c.sample({"history": [{k: v for k, v in op.items()} for op in cases[0]["ops"][2:8]],
               "observed": [{k: v for k, v in ob.items() if k != "stdout"} for ob in obs[0]["obs"][2:8]]})
     c.sample({"host_log": (obs[0]["obs"][-1].get("host") or [])[:24], "container_log": (obs[0]["obs"][-1].get("cont") or [])[:24]})
+    # ---- programs whose descendants left the process group / session; several callers of one environment at once
+    t_new = time.time()
+    for logs in escaped_descendants(c, exe2, env) + callers_at_once(c, exe2, env):
+        items.append("(%s, %s)" % wire(logs))
+        item_src.append(logs)
+    c.cov["seconds_escaped_descendants_and_callers_at_once"] = round(time.time() - t_new, 1)
+    c.log("escaped descendants + callers at once: %.1f s" % (time.time() - t_new))
     body = HDR + "Definition cs := %s.\nDefinition M := Eval vm_compute in failing logs_ok cs.\nPrint M.\n" % coq_list(items)
     for i in c.parse_nums(c.parse_printed(c.coq_eval("logs", body, timeout=1200), "M").replace("%N", "")):
         dis.append({"relation": "logs_ok (wire logs of both endpoints accepted by host_steps / cont_steps)",
-                    "host_log": obs[i]["obs"][-1].get("host"), "container_log": obs[i]["obs"][-1].get("cont")})
+                    "host_log": item_src[i].get("host"), "container_log": item_src[i].get("cont")})
     # ---- cancellations aimed at the instant the program ends
     rounds = 300 if c.quick() else 3000
-    cr = c.run_harness(exe, [{"id": 0, "ops": [{"op": "newenv"}, {"op": "execcross", "rounds": rounds}, {"op": "ping"}]}], env=env, timeout=900)[0]["obs"]
+    cr = c.run_harness(exe, [{"id": 0, "ops": [{"op": "newenv"}, {"op": "execcross", "rounds": rounds}, {"op": "ping"}]}], env=env, timeout=3600)[0]["obs"]
     c.evaluations += cr[1].get("rounds_done", 0)
     c.cov["cancel_crossing_rounds"] = cr[1].get("rounds_done", 0)
     c.cov["cancel_crossing_statuses"] = cr[1].get("statuses")
